@@ -11,7 +11,7 @@ import lpgen
 from translator import gen_copy, gen_members
 
 HARNESSES = [dict(name="C17", deps=[os.path.join(vlib.ROOT, "harness", "gen", "C17_members.inc")])]
-MODEL = False
+MODEL = True
 
 
 MEMBERS_INC = os.path.join(vlib.ROOT, "harness", "gen", "C17_members.inc")
@@ -26,6 +26,129 @@ def regenerate():
     return gen_copy.generate(os.path.join(vlib.COQ, "gen", "Gen_Copy.v"))
 
 
+def rng_part(ck, exe):
+    """The generator model (coq/RandomModel.v, extracted) against class Random and against the generator inside solver objects."""
+    import subprocess
+    model = vlib.build_model("C17")
+    r = ck.rng
+    n = 150 if ck.tier == "quick" else 3000
+    edge = [0, 1, 2, 17, 42, 0xFFFFFFFF, 0xFFFFFFFE, 0x80000000, 0x7FFFFFFF,
+            # seeds at which a member would become 0 without SOPLEX_MAX(., 1u), and their neighbours
+            2**32 - 123456789, 2**32 - 362436000, 2**32 - 521288629, 2**32 - 7654321,
+            2**32 - 123456789 - 1, 2**32 - 362436000 + 1, 2**32 - 521288629 - 1]
+    lines, seqs = [], {}
+    for k in range(n):
+        ops = []
+        for _ in range(r.randrange(1, 30)):
+            m = r.random()
+            if m < 0.25:
+                ops.append("S%d" % (r.choice(edge) if r.random() < 0.4 else r.randrange(2**32)))
+            else:
+                ops.append("N")
+        if k < len(edge):
+            ops = ["S%d" % edge[k]] + ops
+        seqs["g%d" % k] = ops
+        lines.append("RNG g%d %s" % (k, " ".join(ops)))
+    solv = {}
+    for k in range(12 if ck.tier == "quick" else 120):
+        seed = r.choice(edge) if k < len(edge) and r.random() < 0.7 else r.randrange(2**32)
+        nd = r.randrange(0, 40)
+        lo = r.choice([0.0, -1.0, 1e-6, -1e300, 5.0])
+        hi = lo + r.choice([0.0, 1.0, 1e-9, 1e300, 3.5])
+        solv["s%d" % k] = (seed, nd, lo, hi)
+        lines.append("RNGS s%d %d %d %s %s" % (k, seed, nd, _dy(lo), _dy(hi)))
+        seqs["s%d" % k] = ["S%d" % seed] + ["N"] * nd
+    seqs["s-default"] = ["S0"]
+    txt = "\n".join(lines) + "\n"
+    rundir = os.path.join(vlib.BUILD, "run", "C17rng.%d" % os.getpid())
+    os.makedirs(rundir, exist_ok=True)
+    qf = os.path.join(rundir, "rng.txt")
+    with open(qf, "w") as f:
+        f.write("".join("RNG %s %s\n" % (i, " ".join(o)) for i, o in seqs.items()))
+    mo = subprocess.run([model, qf], capture_output=True, text=True, timeout=600)
+    if mo.returncode != 0:
+        raise vlib.BuildError("C17 model runner failed: " + mo.stderr[-500:])
+    M = {}
+    for l in mo.stdout.splitlines():
+        t = l.split()
+        M[(t[1], int(t[2]))] = t[3:]
+    rc, out, err = lpgen.run_harness(exe, txt, "C17rng")
+    if rc != 0:
+        ck.violation("rng-harness-crash", "the generator harness terminated abnormally (rc=%d): %s" % (rc, err[-300:]), {"kind": "crash", "input": txt[-3000:]})
+    nops = 0
+    seen = set()
+    for l in out.splitlines():
+        t = l.split()
+        if not t:
+            continue
+        if t[0] == "R":
+            gid, k = t[1], int(t[2])
+            want = M.get((gid, k))
+            nops += 1
+            seen.add(gid)
+            ck.evaluated(("rng", gid, k, tuple(seqs[gid][:k + 1])), nontrivial=True)
+            ck.count("rng-op:" + ("next" if seqs[gid][k] == "N" else "seed"))
+            rp = {"kind": "rng", "ops": seqs[gid][:k + 1], "implementation": t[3:], "model": want,
+                  "correspondence": "RandomModel.rrun (extracted) vs class Random, member by member after every operation"}
+            if want is None or t[3:8] != want[:5]:
+                ck.violation("tie-mismatch:rng-state:" + ("next" if seqs[gid][k] == "N" else "seed"),
+                             "after %s the members of Random (seedshift, lin, xor, mwc, cst) are %s, the model says %s" % (
+                                 " ".join(seqs[gid][:k + 1])[-200:], t[3:8], want and want[:5]), rp)
+            elif t[8] != "-":
+                v = _undy(t[8])
+                num = int(want[5])
+                if v != num / 4294967295.0 or not (0.0 <= v <= 1.0):
+                    ck.violation("tie-mismatch:rng-value", "next() returned %r, the model's numerator %d / UINT32_MAX is %r" % (v, num, num / 4294967295.0), rp)
+        elif t[0] == "RS":
+            gid, what = t[1], t[2]
+            seed, nd, lo, hi = solv[gid]
+            seen.add(gid)
+            if what == "inrange":
+                ck.evaluated(("rng-solver", gid, "inrange"), nontrivial=True)
+                if t[3] != "1":
+                    ck.violation("rng-next-out-of-range", "next(%r, %r) left its interval within %d draws after seed %d" % (lo, hi, nd, seed),
+                                 {"kind": "rng-solver", "seed": seed, "draws": nd, "lo": lo, "hi": hi})
+                continue
+            # the model state each observation point must show
+            if what == "fresh":
+                want = M.get(("s-default", 0))
+            elif what == "seeded":
+                want = M.get((gid, 0))
+            elif what == "parsed":
+                want = M.get((gid, 0))
+            else:   # drawn / copy / assigned: the state after the draws (a copy keeps the position in the stream)
+                want = M.get((gid, nd))
+            ck.evaluated(("rng-solver", gid, what), nontrivial=True)
+            ck.count("rng-solver:" + what)
+            rp = {"kind": "rng-solver", "seed": seed, "draws": nd, "point": what, "implementation": t[3:], "model": want,
+                  "correspondence": "RandomModel (extracted) vs SoPlexBase::_solver.random after setRandomSeed / draws / copy construction / assignment / settings line"}
+            if want is None or t[3:8] != want[:5]:
+                ck.violation("tie-mismatch:rng-solver:" + what,
+                             "the generator of a solver object (%s; seed %d, %d draws) has members %s, the model says %s" % (what, seed, nd, t[3:8], want and want[:5]), rp)
+            if what != "fresh" and int(t[8]) != seed:
+                ck.violation("rng-solver-seed-getter:" + what, "randomSeed() returns %s after seed %d (%s)" % (t[8], seed, what), rp)
+    if len(seen) < len(seqs) - 1 and rc == 0:
+        ck.violation("rng-harness-incomplete", "the generator harness answered %d of %d sequences" % (len(seen), len(seqs) - 1), {"kind": "crash", "input": txt[-3000:]})
+    ck.cov["rng"] = {"operation_sequences": n, "operations_compared": nops, "solver_object_scenarios": len(solv),
+                     "edge_seeds": [str(e) for e in edge]}
+    import shutil
+    shutil.rmtree(rundir, ignore_errors=True)
+
+
+def _dy(x):
+    import math
+    if x == 0.0:
+        return "0:0"
+    m, e = vlib.dyadic(x)
+    return "%d:%d" % (m, e)
+
+
+def _undy(t):
+    import math
+    m, e = t.split(":")
+    return math.ldexp(int(m), int(e))
+
+
 def main():
     ck = vlib.Check("C17", "other")
     info = regenerate()
@@ -36,6 +159,8 @@ def main():
         for sig, what, rp, ni in ck.violations:
             rp["unsafe_members"] = bad
     exe = vlib.build_harness("C17", deps=[MEMBERS_INC])
+    if not ck.args.replay:
+        rng_part(ck, exe)
     r = ck.rng
     nlp = 70 if ck.tier == "quick" else 1500
     nmax = 10 if ck.tier == "quick" else 25
@@ -75,6 +200,8 @@ def main():
             cfg.pop("solution_polishing", None)
             if r.random() < 0.3:
                 cfg["syncmode"] = r.choice([1, 2])
+            if r.random() < 0.3:
+                cfg["seed"] = r.randrange(1, 1000)     # the seed is a parameter too: a copy must carry it (and the generator)
             mode = r.choice(["ctor", "assign", "assign-used"])
             point = r.choice(["nosolve", "solved", "solved-mod"])
             mut = r.choice(["params", "lp", "solve", "all"])
